@@ -269,6 +269,8 @@ def classify(ob, r):
     desc = r.get("description", "")
     if desc.startswith("REACH."):
         return "reach", desc
+    if desc.startswith("META."):
+        return "meta", desc          # self-checks of the harness (e.g. the planned fault position exists): failing = check out of date, not a violation
     if LABEL_RE.match(desc):
         return "label", desc
     if desc.startswith("unwinding assertion") or "recursion unwinding assertion" in desc:
@@ -488,6 +490,9 @@ def run_obligation(ob, tier, scratch, want_cex=True):
             rec["labels"][key] = "FAILURE" if "FAILURE" in (prev, st) else st
             if st == "FAILURE":
                 failing.append(key)
+        elif kind == "meta":
+            if st == "FAILURE":
+                rec["unwind_failed"].append(key)
         elif kind == "unwind":
             if st == "FAILURE":
                 rec["unwind_failed"].append(key)
